@@ -17,8 +17,11 @@ Statement-level definitions live next to the lemmas that use them:
 import Pandora.Proofs.C15Expand
 import Pandora.Proofs.C15Gcd
 import Pandora.Proofs.C15Ring
+import Pandora.Proofs.C15RingSpec
 import Pandora.Proofs.C15Shoot
 import Pandora.Proofs.C15Next
+import Pandora.Proofs.C15Lock
+import Pandora.Bridge.C15Scen
 
 namespace Pandora.Props.C15
 open Pandora.Model.C15 Pandora.Spec.C15 Pandora.Proofs.C15
@@ -88,6 +91,32 @@ theorem C15_stop_on_failure {Req Resp : Type} (w : World Req Resp) (source : Val
         g'.log = g.log ++ okRun (String.ofList sc.name) (sc.steps.take i) rcs ++ pre ++
           [.sample (failTag (stepTag (String.ofList sc.name) sc.steps[i])) 0 true]) :=
   shootLoop_log w source (String.ofList sc.name) sc.steps [] g b g' h
+
+/-- **what "fails" means**: a step is reported successful exactly when all four of its stages succeed on what the
+libraries answer in the state the earlier steps left behind — the preprocessor (`preStage`: e.g. an empty data source or
+an unknown path is an error), the templater (`render` on the variable tree `{source, request}` with the step's own
+preprocessor variables), the transport (`target` on the history including this request) and every extractor /
+assertion in order (`runPosts`); if any of them fails the step is reported failed (`C15_stop_on_failure`: one failed
+sample, nothing of any later step). No other outcome exists (a Go panic inside the step is not a value of the model). -/
+theorem C15_step_outcome {Req Resp : Type} (w : World Req Resp) (source : Val) (scName : String) (st : Step ReqDef)
+    (rv : List (String × Val)) (g : GState Req) (b : Bool) (rv' : List (String × Val)) (g' : GState Req)
+    (h : shootStep w source scName st rv g = some (b, rv', g')) :
+    (b = true ↔ StepSucceeds w source st rv g) :=
+  shootStep_outcome w source scName st rv g b rv' g' h
+
+/-- **stops at the FIRST step that fails**: the loop runs the head step; if that step succeeds (`StepSucceeds`) the
+outcome of the shot is the outcome of the remaining steps run in the state (variables, iterator, history, log) the
+step produced; if it does not, the shot is over — failed — in the state that step produced, and the remaining steps
+are not touched. -/
+theorem C15_stop_first_failure {Req Resp : Type} (w : World Req Resp) (source : Val) (scName : String)
+    (st : Step ReqDef) (rest : List (Step ReqDef)) (rv : List (String × Val)) (g : GState Req) (b : Bool)
+    (g' : GState Req) (h : shootLoop w source scName (st :: rest) rv g = some (b, g')) :
+    (StepSucceeds w source st rv g →
+      ∃ rv1 g1, shootStep w source scName st rv g = some (true, rv1, g1) ∧
+        shootLoop w source scName rest rv1 g1 = some (b, g')) ∧
+    (¬ StepSucceeds w source st rv g →
+      b = false ∧ ∃ rv1, shootStep w source scName st rv g = some (false, rv1, g')) :=
+  shootLoop_cons w source scName st rest rv g b g' h
 
 /-! ## variable flow -/
 
@@ -171,6 +200,24 @@ theorem C15_weights {ρ} (reqs : List Char → Option ρ) (scs : List ScenarioCf
   · intro k
     unfold deliver
     by_cases h0 : ring.length = 0 <;> simp [h0]
+
+/-- **the judge of the correspondence run holds of the model**: whatever number `n` of ammo is taken from the provider,
+the delivered scenario names satisfy the executable predicate `Spec.C15.ringOK` that `./check` applies to the
+deliveries of the REAL provider — every complete pass of Σ w_i/gcd(w) deliveries contains scenario i exactly
+`w_i/gcd(w)` times, and the counts over every whole number of passes are cross-multiplied proportional to the weights. -/
+theorem C15_ring_spec {ρ} (reqs : List Char → Option ρ) (scs : List ScenarioCfg) (ring : List (Scenario ρ))
+    (hnd : (scs.map (·.name)).Nodup) (hw : ∀ sc ∈ scs, 0 ≤ sc.weight)
+    (h : decodeAmmo reqs scs = .ok ring) (n : Nat) :
+    ringOK (scs.map (·.name)) (scs.map (·.weight))
+      (((List.range n).filterMap (deliver ring)).map (·.name)) = true := by
+  obtain ⟨_, hring⟩ := decodeAmmo_ring reqs scs ring hnd hw h
+  have e : ((List.range n).filterMap (deliver ring)).map (·.name) =
+      cycle (ringNames (fun sc => effW scs.length sc / gcdList (scs.map (effW scs.length))) scs) n := by
+    show (cycle ring n).map (·.name) = _
+    rw [cycle_map, hring]
+    rw [ring_names_eq (scenarioOf reqs) (fun _ => rfl)]
+  rw [e]
+  exact ringOK_cycle scs hnd hw n
 
 /-- a negative weight is refused with an error before anything else (the hypothesis `0 ≤ weight` of `C15_weights`
 is exactly the accepted range; `SpreadNames` never sees a negative weight, so its division and `make` cannot panic) -/
@@ -258,6 +305,104 @@ theorem C15_empty_source_is_error (indexStr seg : String) (id : Nat) (it : Iter)
   · exact ⟨_, rfl⟩
   · exact ⟨_, rfl⟩
 
+/-! ## `[next]` at the level of the code of `NextIterator.Next` (regenerated from the source on every run) -/
+
+/-- **round robin, for the code as it is**: `Gen.C15Scen.nextCode` is the instruction list /verif/gen extracts from
+`(*NextIterator).Next` (lock, map lookup, `if !ok` {insert a fresh counter, return 0}, atomic add, return; the deferred
+`Unlock` before each return). Executed by any number of threads running any (adaptive) programs on one shared
+iterator, one instruction at a time under EVERY schedule (a thread whose next instruction is `lock` while the mutex
+is taken does not move):
+* the k-th value DECIDED for a counter (k = 0, 1, 2, … over all threads together) is k, hence selects row `k mod L`
+  of a data source of `L > 0` rows;
+* what a thread has received plus the value it is about to return is exactly what this order attributes to it, and
+  once it is outside `Next` it has received exactly those values;
+* at most one thread is between its `lock` and its `unlock`;
+* no Unlock of an unlocked mutex and no `Add` through a nil counter happens. -/
+theorem C15_next_code_round_robin (prog : NProg) (sched : List Nat) (key : CKey) (L : Nat) (_hL : 0 < L) :
+    let s := LSys.init.run Gen.C15Scen.nextCode prog sched
+    (∀ k (hk : k < (s.vals key).length), (s.vals key)[k] = k ∧ rowOf L (s.vals key)[k] = k % L) ∧
+    (∀ t, s.got t ++ s.pend t = s.valsOf t) ∧
+    (∀ t, s.pcs t = none → s.got t = s.valsOf t) ∧
+    (∀ t t' f f', s.pcs t = some f → s.pcs t' = some f' → inCrit f.ops = true → inCrit f'.ops = true → t = t') ∧
+    s.fault = false := by
+  rw [Bridge.C15Scen.nextCode_eq]
+  intro s
+  have inv : LInv s := LInv_run prog sched _ LInv_init
+  refine ⟨?_, inv.gotOK, ?_, ?_, inv.noFault⟩
+  · intro k hk
+    have hseq : s.vals key = List.range (s.vals key).length := inv.seq key
+    have e : (s.vals key)[k] = k := by
+      have : (s.vals key)[k] = (List.range (s.vals key).length)[k]'(by simpa using hk) := by
+        congr 1
+      rw [this, List.getElem_range]
+    refine ⟨e, ?_⟩
+    rw [e]
+    unfold rowOf
+    split
+    · rfl
+    · rename_i hlt
+      exact (Nat.mod_eq_of_lt (by omega)).symm
+  · intro t ht
+    have := inv.gotOK t
+    rw [pend_eq, ht] at this
+    simpa [optPend, LSys.valsOf] using this
+  · intro t t' f f' hf hf' hc hc'
+    have h1 := inv.excl t f hf hc
+    have h2 := inv.excl t' f' hf' hc'
+    rw [h1] at h2
+    exact Option.some.inj h2
+
+/-- the executable judge of the correspondence run holds of the rows the code selects under every schedule -/
+theorem C15_next_code_spec (prog : NProg) (sched : List Nat) (key : CKey) (L : Nat) (hL : 0 < L) :
+    roundRobinOK L (((LSys.init.run Gen.C15Scen.nextCode prog sched).vals key).map (rowOf L)) = true := by
+  rw [Bridge.C15Scen.nextCode_eq]
+  have inv : LInv (LSys.init.run nextCode prog sched) := LInv_run prog sched _ LInv_init
+  have hseq : (LSys.init.run nextCode prog sched).vals key =
+      List.range ((LSys.init.run nextCode prog sched).vals key).length := inv.seq key
+  have hrow : rowOf L = (· % L) := by
+    funext i
+    unfold rowOf
+    split
+    · rfl
+    · exact (Nat.mod_eq_of_lt (by omega)).symm
+  rw [hseq, hrow]
+  exact roundRobinOK_range L _ hL
+
+/-- what `calcIndex` does with the value `iter.Next` returns (regenerated) is `rowOf` -/
+theorem C15_next_index_source (i L : Nat) : Gen.C15Scen.nextIndex (i : Int) (L : Int) = ((rowOf L i : Nat) : Int) :=
+  Bridge.C15Scen.nextIndex_eq i L
+
+/-! ## weights, for the code as it is -/
+
+/-- `lib/math.GCD` as regenerated from the source computes the greatest common divisor -/
+theorem C15_gcd_source (a b : Nat) (ha : 0 < a) (hb : 0 < b) :
+    Gen.C15Scen.GCD (a : Int) (b : Int) = some ((Nat.gcd a b : Nat) : Int) := by
+  rw [Bridge.C15Scen.GCD_eq]; exact GCD_nat a b ha hb
+
+/-- `lib/math.GCDM` as regenerated from the source (recursion over every prefix of the weight slice, indexing
+`weights[l-2]`, `weights[l-1]`, `weights[:l-1]` — none of which is out of range) is the gcd of ALL the weights -/
+theorem C15_gcdm_source (ws : List Nat) (hp : ∀ w ∈ ws, 0 < w) (h2 : 2 ≤ ws.length) :
+    Gen.C15Scen.GCDM (ws.map fun (w : Nat) => (w : Int)) = some ((gcdList ws : Nat) : Int) := by
+  rw [Bridge.C15Scen.GCDM_eq]; exact GCDM_nat ws hp h2
+
+/-- `SpreadNames` of the model (about which `C15_weights` speaks) computes with the arithmetic regenerated from
+`config.SpreadNames`: the early returns for no / one scenario, absent weight = 1, the divisor `GCDM(weights…)`, the
+count `weight / div` per scenario and the running total -/
+theorem C15_spread_source (scs : List ScenarioCfg) :
+    spreadNames scs =
+      match scs with
+      | [] => .ok ([], Gen.C15Scen.spreadEmpty)
+      | [s] => .ok ([(s.name, Gen.C15Scen.spreadSingle.1)], Gen.C15Scen.spreadSingle.2)
+      | _ =>
+        let ws := scs.map fun s => Gen.C15Scen.spreadEffWeight s.weight
+        match Gen.C15Scen.spreadDiv ws with
+        | none => .panic "gcd-fuel"
+        | some div =>
+          if div == 0 then .panic "div0" else
+          let cnts := ws.map fun w => Gen.C15Scen.spreadCnt w div
+          .ok ((scs.map (·.name)).zip cnts, cnts.foldl Gen.C15Scen.spreadTotalStep 0) :=
+  Bridge.C15Scen.spreadNames_eq scs
+
 /-! ## non-vacuity: concrete inputs meeting the hypotheses of every theorem -/
 
 section Examples
@@ -317,6 +462,11 @@ example : (shoot (exWorld 2) (.map []) exSc exG).map (fun r => (r.1, r.2.log)) =
     some (false, [.request "a:-", .sample "s.a" 200 false, .pause 3, .request "b:T",
                   .sample "s.b|__EMPTY__" 0 true]) := by decide
 
+
+-- C15_step_outcome / C15_stop_first_failure: in `exWorld 2` the first step succeeds and the second does not
+example : StepSucceeds (exWorld 2) (.map []) exSc.steps[0] [] exG :=
+  ⟨[], Iter.empty, "a:-", 200, [("tok", .str "T")], rfl, by decide, by decide, rfl⟩
+
 -- C15_var_flow / C15_var_visible: the trees handed to the templater, read at `.request.a.postprocessor.tok`
 example : (shoot (exWorld 9) (.map []) exSc exG).map
       (fun r => r.2.seen.map fun t => strAt (.map t) ["request", "a", "postprocessor", "tok"]) =
@@ -339,6 +489,14 @@ example : decodeAmmo exReqs ({ name := "neg".toList, weight := -1, minWaitingTim
 example : (decodeAmmo exReqs (exScs.take 2)).bind (fun ring => .ok (ring.map (String.ofList ·.name))) =
     .ok ["s1", "s1", "s1", "s2", "s2"] := by decide
 
+
+-- C15_ring_spec: the judge accepts 25 deliveries of the 6 : 4 : absent ring, and rejects a 6 : 3 : 2 ring
+example : ringOK (exScs.map (·.name)) (exScs.map (·.weight))
+    ((List.range 25).filterMap fun k => (["s1", "s1", "s1", "s1", "s1", "s1", "s2", "s2", "s2", "s2", "s3"].map String.toList)[k % 11]?) = true ∧
+  ringOK (exScs.map (·.name)) (exScs.map (·.weight))
+    ((List.range 25).filterMap fun k => (["s1", "s1", "s1", "s1", "s1", "s1", "s2", "s2", "s2", "s3", "s3"].map String.toList)[k % 11]?) = false := by
+  decide
+
 /-- two threads, each drawing twice from the same counter -/
 def exKey : CKey := (0, ".source.users")
 def exProg : NProg := fun _ got => if got.length < 2 then some exKey else none
@@ -347,6 +505,31 @@ def exProg : NProg := fun _ got => if got.length < 2 then some exKey else none
 example : let s := NSys.init.run exProg [0, 1, 0, 0, 1, 0, 1, 0, 1, 1, 0, 1, 1, 1, 0, 1, 1, 0, 0, 1, 0, 0]
     (s.vals exKey, s.got 0, s.got 1, (s.vals exKey).map (rowOf 3)) = ([0, 1, 2, 3], [0, 3], [1, 2], [0, 1, 2, 0]) := by
   decide
+
+
+-- C15_next_code_round_robin: the same two threads at instruction level; thread 1 is blocked in `lock` twice
+def exSched : List Nat := [0, 0, 1, 1, 0, 1, 0, 0, 0, 1, 1, 1, 1, 1, 1, 1, 1, 1, 1, 1, 1, 1, 1, 0, 0, 0, 0, 0, 0, 0]
+example : let s := LSys.init.run Gen.C15Scen.nextCode exProg exSched
+    (s.vals exKey, s.got 0, s.got 1, s.fault) = ([0, 1, 2, 3], [0, 3], [1, 2], false) := by
+  decide
+
+/-- two threads, one draw each -/
+def exProg1 : NProg := fun _ got => if got.length < 1 then some exKey else none
+
+/-- a `Next` whose lookup and insert are two critical sections (the counter itself being atomic) -/
+def splitCode : NextCode :=
+  { pre := [.lock, .mapGet, .unlock], miss := [.lock, .putFresh, .unlock, .ret0], hit := [.add 1, .retAdd] }
+
+-- the semantics is not blind: under the schedule "both lookups before the first insert" the split code hands out
+-- row 0 twice (and the second insert replaces the counter the first one created), while `nextCode` cannot
+example : let s := LSys.init.run splitCode exProg1 [0, 0, 0, 0, 1, 1, 1, 1, 0, 0, 0, 0, 1, 1, 1, 1]
+    (s.vals exKey, s.got 0, s.got 1) = ([0, 0], [0], [0]) := by decide
+example : let s := LSys.init.run nextCode exProg1 [0, 0, 0, 0, 1, 1, 1, 1, 0, 0, 0, 0, 1, 1, 1, 1, 1, 1]
+    (s.vals exKey, s.got 0, s.got 1) = ([0, 1], [0], [1]) := by decide
+
+-- C15_next_index_source / C15_gcd_source / C15_gcdm_source / C15_spread_source on concrete values
+example : Gen.C15Scen.nextIndex 7 3 = 1 ∧ Gen.C15Scen.GCD 6 4 = some 2 ∧ Gen.C15Scen.GCDM [4, 6, 3] = some 1 ∧
+    Gen.C15Scen.GCDM [6, 10, 15] = some 1 ∧ Gen.C15Scen.GCDM [4, 6, 8, 10] = some 2 := by decide
 
 -- C15_next_row / C15_empty_source_is_error
 example : (calcIndex "next" ".source.users" 3 0 { Iter.empty with gs := [((0, ".source.users"), 6)] }).bind
